@@ -120,15 +120,21 @@ pub mod thread {
 
   /// std's contract: blocks until the token is available; may return spuriously.
   pub fn park() {
+    let mut first = true;
     loop {
       if take_token() {
+        // the wake overtook the park: the notifier ran between the waiter's last check and its park
+        ctx::probe(if first { "park_found_token_already_set" } else { "park_woken_by_unpark" });
         return;
       }
+      first = false;
       check_no_park();
+      ctx::probe("park_blocked");
       // Blocks in shuttle; the scheduler may wake a parked task spuriously (it counts those as
       // F1), and a stale shuttle-level token may let this return at once.
       shuttle::thread::park();
       if take_token() {
+        ctx::probe("park_woken_by_unpark");
         return;
       }
       // Woken without our token: a spurious wake-up. Either surface it to the caller (legal per
@@ -150,6 +156,7 @@ pub mod thread {
     check_no_park();
     shuttle::thread::yield_now();
     if take_token() {
+      ctx::probe("park_timeout_woken_in_time");
       return;
     }
     let ns = d.as_nanos().min(u64::MAX as u128 / 8) as u64;
